@@ -248,19 +248,19 @@ theorem seqLines_signalDoc (pfx sg : String) (len : Nat) (es : List SigEntry) :
 theorem structLines_signalDoc (pfx sg : String) (len : Nat) (es : List SigEntry) :
     structLines (signalDoc pfx sg len es) =
       (pfx ++ sg ++ "-_Self", duplex len) ::
-        (dedupEntries es).map (fun e => (pfx ++ sg ++ "-" ++ (portItems pfx e).1, duplex len)) := by
+        (dedupEntries es).map (fun e => (pfx ++ sg ++ "-" ++ (portItems pfx e).1 ++ rcSuffix es e, duplex len)) := by
   simp only [structLines, signalDoc, List.filterMap_append, List.filterMap_flatMap]
-  rw [flatMap_singleton' _ _ (fun e => (pfx ++ sg ++ "-" ++ (portItems pfx e).1, duplex len))]
+  rw [flatMap_singleton' _ _ (fun e => (pfx ++ sg ++ "-" ++ (portItems pfx e).1 ++ rcSuffix es e, duplex len))]
   · rfl
   · intro e _; rfl
 
 theorem assignLines_signalDoc (pfx sg : String) (len : Nat) (es : List SigEntry) :
     assignLines (signalDoc pfx sg len es) =
       (pfx ++ sg ++ "-_Self", [⟨wcName pfx sg, false⟩, ⟨pfx ++ sg, false⟩]) ::
-      (dedupEntries es).map (fun e => (pfx ++ sg ++ "-" ++ (portItems pfx e).1,
+      (dedupEntries es).map (fun e => (pfx ++ sg ++ "-" ++ (portItems pfx e).1 ++ rcSuffix es e,
         (⟨if e.wc then pfx ++ sg else wcName pfx sg, false⟩ : Item) :: (portItems pfx e).2)) := by
   simp only [assignLines, signalDoc, List.filterMap_append, List.filterMap_flatMap]
-  rw [flatMap_singleton' _ _ (fun e => (pfx ++ sg ++ "-" ++ (portItems pfx e).1,
+  rw [flatMap_singleton' _ _ (fun e => (pfx ++ sg ++ "-" ++ (portItems pfx e).1 ++ rcSuffix es e,
         (⟨if e.wc then pfx ++ sg else wcName pfx sg, false⟩ : Item) :: (portItems pfx e).2))]
   · rfl
   · intro e _; rfl
@@ -394,6 +394,129 @@ theorem sublist_flatMap {α β} {l : List α} {f g : α → List β} (h : ∀ a 
   | cons a r ih =>
     simp only [List.flatMap_cons]
     exact List.Sublist.append (h a (by simp)) (ih (fun x hx => h x (by simp [hx])))
+
+/-! ### the `-_rc` suffix of `System.output_nupack` (`Sys.rcSuffix`, repair F17b) -/
+
+/-- `e` is a complementary binding of a port that the same signal also binds plainly: its connector is the one
+    `System.output_nupack` calls `…-_rc` -/
+def RcNamed (es : List SigEntry) (e : SigEntry) : Prop :=
+  e.wc = true ∧ ∃ e' ∈ es, e'.connName = e.connName ∧ e'.wc = false
+
+theorem rcNamed_iff (es : List SigEntry) (e : SigEntry) :
+    (e.wc && es.any (fun e' => e'.connName == e.connName && !e'.wc)) = true ↔ RcNamed es e := by
+  simp [RcNamed, List.any_eq_true]
+
+theorem rcSuffix_eq_rc {es : List SigEntry} {e : SigEntry} (h : RcNamed es e) : rcSuffix es e = "-_rc" := by
+  unfold rcSuffix; rw [if_pos ((rcNamed_iff es e).2 h)]
+
+theorem rcSuffix_eq_empty {es : List SigEntry} {e : SigEntry} (h : ¬ RcNamed es e) : rcSuffix es e = "" := by
+  unfold rcSuffix; rw [if_neg (fun c => h ((rcNamed_iff es e).1 c))]
+
+/-- the suffix is `-_rc` for a complementary binding of a port also bound plainly, and empty otherwise -/
+theorem rcSuffix_cases (es : List SigEntry) (e : SigEntry) :
+    (RcNamed es e ∧ rcSuffix es e = "-_rc") ∨ (¬ RcNamed es e ∧ rcSuffix es e = "") := by
+  by_cases h : RcNamed es e
+  · exact Or.inl ⟨h, rcSuffix_eq_rc h⟩
+  · exact Or.inr ⟨h, rcSuffix_eq_empty h⟩
+
+theorem rcSuffix_eq_rc_iff (es : List SigEntry) (e : SigEntry) : rcSuffix es e = "-_rc" ↔ RcNamed es e := by
+  rcases rcSuffix_cases es e with ⟨h, e1⟩ | ⟨h, e1⟩
+  · exact ⟨fun _ => h, fun _ => e1⟩
+  · rw [e1]; exact ⟨fun c => absurd c (by decide), fun c => absurd c h⟩
+
+/-- the suffix depends on the entry only through its connector name and orientation -/
+theorem rcSuffix_congr (es : List SigEntry) {e e' : SigEntry} (h1 : e.connName = e'.connName) (h2 : e.wc = e'.wc) :
+    rcSuffix es e = rcSuffix es e' := by
+  unfold rcSuffix; rw [h1, h2]
+
+/-- no suffix on a table in which entries of one connector name have one orientation (in particular: pairwise
+    distinct connector names, the loaded case) -/
+theorem rcSuffix_of_consistent {es : List SigEntry}
+    (h : ∀ e ∈ es, ∀ e' ∈ es, e.connName = e'.connName → e.wc = e'.wc) {e : SigEntry} (he : e ∈ es) :
+    rcSuffix es e = "" := by
+  apply rcSuffix_eq_empty
+  rintro ⟨hw, e', he', hc, hw'⟩
+  have := h e' he' e he hc
+  rw [hw, hw'] at this
+  cases this
+
+/-- the name of an entry's connector after `<signal>-` -/
+def connTail (es : List SigEntry) (e : SigEntry) : String := e.connName ++ rcSuffix es e
+
+theorem ne_append_rc (s : String) : s ≠ s ++ "-_rc" := by
+  intro h
+  have h' : s ++ "" = s ++ "-_rc" := by rw [String.append_empty]; exact h
+  exact absurd ((String.append_right_inj s).1 h') (by decide)
+
+/-- two kept entries get the same connector name only if they are the same entry, or one of them is an `…-_rc`
+    connector of port `p` and the other a connector (without suffix) of a port called `p-_rc` -/
+theorem connTail_inj {es : List SigEntry} {k k' : SigEntry} (hk : k ∈ es) (hk' : k' ∈ es)
+    (h : connTail es k = connTail es k') :
+    dupKey k = dupKey k' ∨ (RcNamed es k ∧ k'.connName = k.connName ++ "-_rc") ∨
+      (RcNamed es k' ∧ k.connName = k'.connName ++ "-_rc") := by
+  unfold connTail at h
+  rcases rcSuffix_cases es k with ⟨r, e1⟩ | ⟨r, e1⟩ <;> rcases rcSuffix_cases es k' with ⟨r', e2⟩ | ⟨r', e2⟩
+  · rw [e1, e2, String.append_left_inj] at h
+    exact Or.inl (Prod.ext h (by rw [show (dupKey k).2 = k.wc from rfl, show (dupKey k').2 = k'.wc from rfl, r.1, r'.1]))
+  · rw [e1, e2, String.append_empty] at h
+    exact Or.inr (Or.inl ⟨r, h.symm⟩)
+  · rw [e1, e2, String.append_empty] at h
+    exact Or.inr (Or.inr ⟨r', h⟩)
+  · rw [e1, e2, String.append_empty, String.append_empty] at h
+    refine Or.inl (Prod.ext h ?_)
+    show k.wc = k'.wc
+    cases hw : k.wc <;> cases hw' : k'.wc
+    · rfl
+    · exact absurd ⟨hw', k, hk, h, hw⟩ r'
+    · exact absurd ⟨hw, k', hk', h.symm, hw'⟩ r
+    · rfl
+
+/-- **when the connector names of one signal are pairwise distinct**: exactly when no port bound in both
+    orientations (whose complementary connector is therefore called `<port>-_rc`) has a sibling entry whose own
+    connector name is `<port>-_rc` -/
+theorem connTails_nodup_iff (es : List SigEntry) :
+    ((dedupEntries es).map (connTail es)).Nodup ↔
+      ∀ e ∈ es, ∀ e₀ ∈ es, ∀ e' ∈ es, e.wc = true → e₀.wc = false → e₀.connName = e.connName →
+        e'.connName ≠ e.connName ++ "-_rc" := by
+  constructor
+  · intro hn e he e₀ he₀ e' he' hw hw₀ hc₀ hc'
+    -- a sibling without suffix carrying the clashing name
+    obtain ⟨x, hx, hxc, hxs⟩ : ∃ x ∈ es, x.connName = e.connName ++ "-_rc" ∧ rcSuffix es x = "" := by
+      rcases rcSuffix_cases es e' with ⟨r, _⟩ | ⟨_, e1⟩
+      · obtain ⟨_, x, hx, hxc, hxw⟩ := r
+        refine ⟨x, hx, hxc.trans hc', rcSuffix_eq_empty ?_⟩
+        rintro ⟨c, _⟩; rw [hxw] at c; cases c
+      · exact ⟨e', he', hc', e1⟩
+    obtain ⟨k, hk, hk1, hk2⟩ := dedupEntries_cover he
+    obtain ⟨k', hk', hk1', hk2'⟩ := dedupEntries_cover hx
+    have hkr : RcNamed es k := ⟨hk2.trans hw, e₀, he₀, hc₀.trans hk1.symm, hw₀⟩
+    have t1 : connTail es k = e.connName ++ "-_rc" := by unfold connTail; rw [rcSuffix_eq_rc hkr, hk1]
+    have t2 : connTail es k' = e.connName ++ "-_rc" := by
+      unfold connTail; rw [rcSuffix_congr es hk1' hk2', hxs, String.append_empty, hk1', hxc]
+    have : k = k' := nodup_map_inj hn hk hk' (t1.trans t2.symm)
+    subst this
+    exact ne_append_rc e.connName (hk1.symm.trans (hk1'.trans hxc))
+  · intro h
+    have hp : (dedupEntries es).Pairwise (fun a b => dupKey a ≠ dupKey b) :=
+      List.pairwise_map.1 (dedupEntries_keys_nodup es)
+    unfold List.Nodup
+    rw [List.pairwise_map]
+    refine List.Pairwise.imp_of_mem ?_ hp
+    intro a b ha hb hne heq
+    have ha' := dedupEntries_sub ha
+    have hb' := dedupEntries_sub hb
+    rcases connTail_inj ha' hb' heq with e | ⟨⟨hw, e₀, he₀, hc₀, hw₀⟩, hc⟩ | ⟨⟨hw, e₀, he₀, hc₀, hw₀⟩, hc⟩
+    · exact hne e
+    · exact h a ha' e₀ he₀ b hb' hw hw₀ hc₀ hc
+    · exact h b hb' e₀ he₀ a ha' hw hw₀ hc₀ hc
+
+theorem connTails_nodup_of_consistent {es : List SigEntry}
+    (h : ∀ e ∈ es, ∀ e' ∈ es, e.connName = e'.connName → e.wc = e'.wc) : ((dedupEntries es).map (connTail es)).Nodup := by
+  rw [connTails_nodup_iff]
+  intro e he e₀ he₀ _ _ hw hw₀ hc₀
+  have := h e₀ he₀ e he hc₀
+  rw [hw, hw₀] at this
+  cases this
 
 /-! ### base pairs of a duplex -/
 
@@ -944,9 +1067,9 @@ theorem port_items_nucs {e : SigEntry} (he : e ∈ es) :
     simp [itemNucs, seqLen_resolves ok sub eok]
 
 theorem entry_positions {e : SigEntry} (he : e ∈ dedupEntries es) :
-    desPositions (docOf bs) (pfx ++ sg ++ "-" ++ (portItems pfx e).1) =
+    desPositions (docOf bs) (pfx ++ sg ++ "-" ++ (portItems pfx e).1 ++ rcSuffix es e) =
       (if e.wc then fwd (pfx ++ sg) len else fwd (wcName pfx sg) len) ++ portNucs pfx len e := by
-  have hA : (pfx ++ sg ++ "-" ++ (portItems pfx e).1,
+  have hA : (pfx ++ sg ++ "-" ++ (portItems pfx e).1 ++ rcSuffix es e,
       (⟨if e.wc then pfx ++ sg else wcName pfx sg, false⟩ : Item) :: (portItems pfx e).2) ∈ assignLines (docOf bs) := by
     apply mem_assign_block hb
     simp only [blockDoc, assignLines_signalDoc]
